@@ -3,6 +3,7 @@ package anthropic
 import (
 	"context"
 	"encoding/json"
+	"errors"
 	"fmt"
 	"io"
 	"net/http"
@@ -27,6 +28,10 @@ func (t *Translator) TransformRequest(ctx context.Context, r *http.Request) (*tr
 
 	if err := decoder.Decode(&anthropicReq); err != nil {
 		return nil, fmt.Errorf("failed to parse Anthropic request: %w", err)
+	}
+	// one JSON document, nothing behind it
+	if _, tokErr := decoder.Token(); !errors.Is(tokErr, io.EOF) {
+		return nil, fmt.Errorf("failed to parse Anthropic request: unexpected data after the JSON document")
 	}
 	anthropicReq.normaliseNumbers()
 
